@@ -46,7 +46,9 @@ def weighted(alternatives):
 
 # names ---------------------------------------------------------------------------------
 
-NAME_ALPHA = st.sampled_from(list("abcxyzABZ019 _-.:µéüß日本λ😀"))
+# incl. a combining accent (U+0301) and compatibility singletons (OHM SIGN U+2126, ANGSTROM SIGN U+212B) next to
+# their canonical twins: names are compared as code point sequences, never after any Unicode normalisation
+NAME_ALPHA = st.sampled_from(list("abcxyzABZ019 _-.:µéüß日本λ😀e\u0301\u2126\u03a9\u212b\u00c5"))
 
 
 def names(max_size=12):
